@@ -213,11 +213,19 @@ pub fn judge(cap: usize, ending: &str, ops: &[OpSpec], out: &Outcome) -> Vec<Val
                 }
             }
             match ids {
-                None => add("C05", "framing", format!("op {}: socket write \"{}\" is not a run of whole lines nor a single oversized metric", i, show(&a.bytes))),
+                None => {
+                    add("C05", "framing", format!("op {}: socket write \"{}\" is not a run of whole lines nor a single oversized metric", i, show(&a.bytes)));
+                    if out.attempts.iter().take_while(|x| !std::ptr::eq(*x, *a)).any(|x| !x.ok) {
+                        add("C07", "framing-after-failure", format!("op {}: after a failed socket write, \"{}\" is not a run of whole lines", i, show(&a.bytes)));
+                    }
+                }
                 Some(ids) => {
                     if single {
                         if op.len + elen <= cap {
                             add("C05", "framing", format!("op {}: metric of {} bytes sent alone without terminator although it fits an empty buffer of {}", i, op.len, cap));
+                            if !queue.is_empty() {
+                                add("C06", "order", format!("op {}: metric {} fits the buffer but was written before the buffered metrics {:?}", i, i, queue));
+                            }
                         }
                     } else {
                         if a.bytes.len() > cap {
